@@ -294,9 +294,9 @@ def _keyhash(model, rep, mod):
 
 
 # ---------------------------------------------------------------- memo guards
-def _memo(model, rep):
+def _memo(model, rep, classes=None, floor=2):
     nguards = 0
-    for mname, cname in MEMO_CLASSES:
+    for mname, cname in (classes or MEMO_CLASSES):
         mod = model.mod(mname)
         ci = model.cls(mname, cname)
         for meth, fn in ci.methods.items():
@@ -342,7 +342,7 @@ def _memo(model, rep):
                                    'anything the guard looks at: after such a call the early return keeps stale derived data'
                                    % (tc, ', '.join('%s.%s' % (tc, m) for m in uncovered)), engine='memo',
                                    qual='%s.%s' % (cname, meth))
-    rep.floor('memo guards found', nguards, 2)
+    rep.floor('memo guards found', nguards, floor)
     # synthetic positive example (the identity-key rule has no instance on the repaired tree)
     from ..model import attach_parents
     probe = attach_parents(ast.parse('class X:\n def generate(self, starset, t=0):\n  if starset == self.starset: return\n  self.starset = starset\n  self.t = t\n'))
